@@ -155,6 +155,34 @@ def computed_variants(prop: str) -> List[dict]:
                 break
         if done:
             break
+    # (c) an invariant-restoring call of the must-call table is put behind a condition
+    from rules.mustcall_table import TABLE
+    byqual = {}
+    for fi in repo.all_functions():
+        byqual.setdefault(fi.qual, fi)
+    for props, qual, (recv, name), _why in TABLE:
+        if prop not in props or qual not in byqual:
+            continue
+        fi = byqual[qual]
+        src = open(os.path.join(core.REPO, fi.file), encoding="utf-8").read().split("\n")
+        done = False
+        for st in fi.node.body:
+            if isinstance(st, (ast.Expr, ast.Assign)) and st.lineno == st.end_lineno:
+                c = st.value
+                if isinstance(c, ast.Call) and ((isinstance(c.func, ast.Attribute) and c.func.attr == name and
+                                                (recv is None or ast.unparse(c.func.value) == recv)) or
+                                               (isinstance(c.func, ast.Name) and c.func.id == name and recv is None)):
+                    line = src[st.lineno - 1]
+                    ind = line[:len(line) - len(line.lstrip())]
+                    if isinstance(st, ast.Assign):
+                        continue
+                    out.append({"id": f"{prop}-auto-mustcall", "kind": "break", "rule": f"R-{prop}-mustcall", "file": fi.file,
+                                "lineno": st.lineno, "text": f"{ind}if len(str(0)) == 2:\n{ind}    {line.strip()}",
+                                "what": f"`{line.strip()}` in {qual} made conditional"})
+                    done = True
+                    break
+        if done:
+            break
     return out
 
 
